@@ -27,7 +27,7 @@ abbrev KV := List (String × String)
 /-! ### Secrets and connection details -/
 
 structure SecretStore where
-  secrets : List (String × KV)     -- Secret name ↦ data (namespace fixed by the harness)
+  secrets : List (String × KV)     -- Secret key (namespace AND name, rendered "name" / "ns/name") ↦ data
   failing : List String            -- Secret names whose Get answers an error other than NotFound
   deriving Repr, Inhabited
 
@@ -123,7 +123,7 @@ abbrev XFn := XRequest → Option Response
 structure Cred where
   name : String
   isSecret : Bool                 -- source == Secret
-  secretRef : Option String
+  secretRef : Option String       -- key of secretRef.namespace + secretRef.name (both: client.ObjectKey)
   deriving DecidableEq, Repr, Inhabited
 
 /-- v1.PipelineStep -/
